@@ -65,9 +65,20 @@ def _steps(draw):
                                          ("2021-11-06", "America/New_York"), ("2021-03-27", "Europe/London")]))
         g = {"start": date + " 00:00", "T": draw(st.integers(2, 5)), "freq": "d", "mtu": draw(st.sampled_from(["h", "d", "min"])),
              "tz": tz}
-    cls = draw(st.sampled_from(["simple", "transport", "storage"]))
+    cls = draw(st.sampled_from(["simple", "transport", "storage", "coarse", "coarse"]))
     cx = gen.Cx(g, ["n0", "n1"], {"p0": [1.0] * g["T"]})
-    a = gen.draw_asset(draw, cx, cls, "a0")
+    if cls == "coarse":
+        if kind == "month":
+            g["freq"], g["start"], g["T"] = "d", "2021-03-27 00:00", draw(st.integers(4, 6))
+            g["tz"] = "CET"
+        g["T"] = max(g["T"], 4)
+        cx = gen.Cx(g, ["n0", "n1"], {"p0": [1.0] * g["T"]})
+        a = gen.a_simple(draw, cx, "a0", allow_forms=False, sides="buy")
+        a["extra_costs"] = 0.0
+        a["wacc"] = 0.0
+        a["freq"] = "2d"
+    else:
+        a = gen.draw_asset(draw, cx, cls, "a0")
     a["start"] = a["end"] = None
     for k in ("min_cap", "max_cap"):
         if isinstance(a.get(k), dict):
@@ -197,6 +208,23 @@ def check_steps(spec, out):
         return out.drop("setup_error:" + op.kind)
     T = g["T"]
     l, u = np.asarray(op.l, float), np.asarray(op.u, float)
+    if a.get("freq"):
+        # coarse asset on unequal steps: constant RATE inside a coarse step, so the share of a grid step in the
+        # coarse variable is its real length / length of the coarse step, and the limit is rate x that length
+        nco = T // 2
+        mp = op.mapping
+        for j in range(nco):
+            steps = [2 * j, 2 * j + 1]
+            tot = float(dt[steps].sum())
+            if abs(u[j] - a["max_cap"] * tot) > 1e-9 * (1 + tot) or abs(l[j] - a["min_cap"] * tot) > 1e-9 * (1 + tot):
+                out.fail("coarse step %d: limits [%g,%g], expected rate x elapsed time [%g,%g]" % (j, l[j], u[j], a["min_cap"] * tot, a["max_cap"] * tot))
+            rows = mp.loc[[j]] if j in mp.index else mp.iloc[0:0]
+            got = {int(t): float(f) for t, f in zip(rows["time_step"].values, rows["disp_factor"].values)}
+            exp = {t: float(dt[t] / tot) for t in steps}
+            if set(got) != set(exp) or any(abs(got[t] - exp[t]) > 1e-9 for t in exp):
+                out.fail("coarse step %d: shares of the grid steps %s, expected step length / coarse length %s" % (j, got, exp))
+        out.nontrivial = len(set(np.round(dt[: 2 * nco], 9))) >= 2
+        return
     if a["type"] == "simple":
         lo, hi = a["min_cap"] * dt, a["max_cap"] * dt
         if len(l) == T:
